@@ -191,7 +191,7 @@ async def do_op(rec: Recorder, tr: Any, op: str, tmo: float | None, data: bytes)
 
 
 async def drain_and_finish(rec: Recorder, tr: Any, *, drain: bool = True) -> None:
-    await asyncio.sleep(0.1)
+    await asyncio.sleep(0.25)  # past the grace period of every alive check
     drained = False
     if drain and tr is not None:
         for _ in range(64):
